@@ -13,6 +13,5 @@ type (
 	WaitGroup = vrt.WaitGroup
 	Once      = vrt.Once
 	Pool      = sync.Pool
-	Map       = sync.Map
 	Locker    = sync.Locker
 )
